@@ -23,7 +23,7 @@ func main() {
 	netgen.Main("C04", "Prov.check04", rule, func(x *netgen.Ctx) {
 		run := x.Run
 		// thorough: every bit of every protected field at every position (~500 cases per path)
-		nWorlds := run.Count(12, 25)
+		nWorlds := run.Count(9, 25)
 		perWorld := 4
 		x.EachPath(nWorlds, perWorld, func(i int, w *netgen.World, p *netgen.Path, r *vgen.Rand) {
 			_, expired, _ := p.ExpiryMargin(x.Now)
